@@ -141,6 +141,22 @@ def step (s : St) (line : String) : St × String :=
       let (mon', j) := judgeResult s.sys.cfg s.mon sender t ok st'
       ({ sys := sys', mon := mon' }, verdictOf j model impl)
     | _, _, _ => (s, "BADLINE")
+  | ["engine", n, msg] =>
+    -- `n` single sends one after the other through a sink wrapped by `wrap_with_resilience`, every
+    -- inner send failing with `msg`: the model's DLQ (first `threshold` entries carry `msg`, the rest
+    -- "circuit breaker open") against the DLQ file the engine wrote
+    match n.toNat?, unhex msg, (field iw "dlq=").bind parseEntries with
+    | some n, some msg, some de =>
+      let sys' := (List.range n).foldl (fun (sy : Sys) i =>
+        let (s1, r) := start sy 1 [i + 1] (i + 1)
+        if r.isNone then (finish s1 1 (.fail msg 0) (i + 1)).1 else s1) s.sys
+      let model := s!"dlq={fmtEntries sys'.dlq}"
+      let lost := (List.range n).filter fun i => !(de.any fun (c, _, e) => c == s.sys.name && e == i + 1)
+      if !lost.isEmpty then
+        ({ s with sys := sys' }, s!"JUDGE C45 events {lost.map (· + 1)} handed to the engine's resilient sink are neither delivered nor in the DLQ under the sink's name")
+      else ({ s with sys := sys' }, verdict model impl)
+    | _, _, _ => (s, if (impl.splitOn "unreadable").length > 1
+                    then "JUDGE C45 a DLQ line is not a readable entry (connector, error, timestamp, event)" else "BADLINE")
   | ["threads", _n, _calls] =>
     -- any number of racing callers on an open breaker whose timeout has passed: the model admits the
     -- first and rejects all others (`half_open_single_probe`)
